@@ -173,3 +173,14 @@ func VerifPeerSessionClosing(ss *ServerSession) bool {
 func VerifPeerSessionUDPLastPacketTime(ss *ServerSession) int64 {
 	return ss.udpLastPacketTime.Load()
 }
+
+// VerifPeerSessionID returns the secret session id.
+func VerifPeerSessionID(ss *ServerSession) string {
+	return ss.secretID
+}
+
+// VerifPeerSessionPinned returns tcpConn, the connection the session is pinned to while it
+// streams over an interleaved connection (call it after VerifPeerSessionSync).
+func VerifPeerSessionPinned(ss *ServerSession) *ServerConn {
+	return ss.tcpConn
+}
